@@ -52,6 +52,16 @@ was strengthened (never by loosening a check):
 | C15-3, C15-4 (record size wraps past 65 535 and the template is cloned per byte; V7 arm copies the remainder per packet) | the scale driver had neither shape | a 2 000-field template whose lengths sum to 65 537 followed by 28 KB of data; a datagram packed with header-only V7 packets |
 | C16-3 (duplicate ids in one template flowset reordered through a HashMap) | template sets never repeated an id | `dup_templates_session`: 8 ids, two repeated, twin parsers |
 | C14-3 (truncated IPFIX message leaks its complete template sets) - caught at first by C06 and C14 | - | C14's cache clause is attributed explicitly when the reference says the buffer ends in a cut V5/V7/IPFIX packet |
+| C02-6 (V5 record count capped at the documented 30) | V5/V7 packets of the framing drivers never had more than 30 records | 31- and 33-record packets in the conformant, mutate and chained sequences |
+| C09-6 (V9 export truncates a flowset to its length word; words < 4 are accepted on input) | the framing alphabet (which has such flowsets) was not fed to C09/C10 | `MC_Framing` vectors are judged for C09/C10 too |
+| C16-6, C06 (thread-local memo of V9 record sizes shared by all parser instances) | parsers of one session ran in lockstep or one after the other | the calls of the chain-round parsers are merged in a random order (each keeps its own); a second one-packet-per-call twin |
+| C11-5 (V9 flowset budget clamped through a failing u16 conversion when >= 256 KiB follow) | no buffer beyond one datagram | `longchain` driver: 300 KB buffers (whole, two halves, per packet) |
+| C11-6 (V9 budget charged per template record) | the mutant breaks the one-packet-per-call parser as well, so its observations no longer certified the antecedent and the round switched itself off | the antecedent of chain rounds is certified by the *reference run* of each one-packet call (`RefOne`), never by the observed parser; template sets with several templates in chained sequences; round antecedent coverage in the evidence |
+| C07-5, C07-6 (unknown V9 id leaves a placeholder in the cache; unknown IPFIX set turns the message into an error) | reported under C06 / C05 only | C07's "caches are unchanged" and "an IPFIX message simply omits that set" attributed (`UnknownIds`, `c07b`) |
+| C01-6 (empty IPFIX data set accepted, `chunks(0)` panics in the common view) | panics of re-export / common view were judged only on results the reference explains | judged on every returned value |
+| C12-6 (unknown-version error carries the whole buffer instead of the unparsed bytes) | the payload of the error was projected but never compared | payload must be the unparsed bytes (with or without the version field) |
+| C17-6 (feature off: a V9 data flowset under an unknown-field template fails the packet, later template flowsets are lost) | the builds were compared on known-only streams; in mixed streams the feature-off run adopted its own (wrong) caches | `TraceEq.tla` MIXED mode: on mixed streams both builds must hold the same templates after every call and return identical packets wherever no unknown field type is mentioned. This also exposed a genuine divergence on the pinned tree (IPFIX, known finding `KF-c17-ipfix-templates-after-unknown-field-set`) |
+| C08-6 (thread-local export scratch keeps the surplus records of an over-full structure) | only in-domain structures were exported | structures with count != number of records exported in between (no verdict on them) |
 
 | change | what it does | what it needs to manifest | confirmed | checks that report a VIOLATION | own property's check |
 |---|---|---|---|---|---|
